@@ -120,6 +120,14 @@ class Design:
             m.conns[iname] = {}
             for p, x in conns.items():
                 m.conns[iname][p] = x
+        elif k == "reinst":
+            # an instance name assigned again: the new instance replaces the old one
+            _, mid, iname, target, how, conns = op
+            m = self.mods[mid]
+            if iname not in m.insts or m.insts[iname]["kind"] != "inst":
+                raise ModelError("reinst of something that is not an instance")
+            m.insts[iname] = {"kind": "inst", "target": target, "n": 1}
+            m.conns[iname] = dict(conns)
         elif k == "conn":
             _, mid, iname, port, x, how = op
             self.mods[mid].conns[iname][port] = x
@@ -573,4 +581,4 @@ def load(ops):
     return d
 
 
-DESIGN_OPS = {"bundle", "ext", "module", "end", "sig", "bun", "inst", "arr", "pair", "conn", "disc", "repl"}
+DESIGN_OPS = {"bundle", "ext", "module", "end", "sig", "bun", "inst", "arr", "pair", "conn", "disc", "repl", "reinst"}
